@@ -208,6 +208,9 @@ func genNasLemmas(repo string, out string) ([]string, error) {
 		}
 		genNasMessage(&b, m, types)
 	}
+	if err := genNasLayout(&b, msgs, types); err != nil {
+		return nil, err
+	}
 	if err := os.WriteFile(out, []byte(b.String()), 0o644); err != nil {
 		return nil, err
 	}
@@ -279,7 +282,7 @@ func genNasDispatch(repo string, covered map[string]*nasMsg, types map[string]*n
 			}
 			ident := ""
 			for _, fl := range m.Fields {
-				if strings.HasSuffix(fl.Type, "MessageIdentity") {
+				if strings.Contains(fl.Type, "MessageIdentity") {
 					ident = fl.Type
 				}
 			}
@@ -370,6 +373,10 @@ func genNasMessage(b *strings.Builder, m *nasMsg, types map[string]*nasIEType) {
 			}
 		case t.OctetN > 0 && t.LenBits == 0:
 			fmt.Fprintf(b, "%s%s.Octet = %so\n", ind, x, p)
+			if used := tsValueOctets(m.Name, f.Type, f.Optional); used > 0 && used < t.OctetN {
+				// the array is larger than the IE of the standard: the octets that are not part of the IE are zero
+				fmt.Fprintf(b, "%sfor j := %d; j < %d; j++ {\n%s\t%s.Octet[j] = 0\n%s}\n", ind, used, t.OctetN, ind, x, ind)
+			}
 		case t.OctetN > 0:
 			// length within the capacity; octets beyond the length are zero
 			fmt.Fprintf(b, "%svc.Assume(int(%sl) <= %d)\n", ind, p, t.OctetN)
@@ -530,4 +537,328 @@ func genNasMessage(b *strings.Builder, m *nasMsg, types map[string]*nasIEType) {
 		}
 		fmt.Fprintf(b, "\ta := %s\n\td := New%s(0)\n\td.Decode%s(&wire)\n\tvcAssertSame_%s(a, d)\n}\n\n", mk(func(int) string { return "true" }), m.Name, m.Name, m.Name)
 	}
+}
+
+// ---------------- C09: layout against the tables of TS 24.501 ----------------
+
+type tsField struct {
+	GoType string
+	Format string // V, LV, LVE / TV1, TV, TLV, TLVE
+	N      int    // V<n>: octets; TV<n>: octets in all
+	IEI    int
+}
+
+type tsMsg struct {
+	Name    string
+	MsgType int
+	Mand    []tsField
+	Opt     []tsField
+}
+
+func parseTsTables() (map[string]*tsMsg, error) {
+	out := map[string]*tsMsg{}
+	for _, row := range ts24501Tables {
+		parts := strings.Split(row, "|")
+		if len(parts) != 3 {
+			return nil, fmt.Errorf("bad table row %q", row)
+		}
+		hd := strings.Fields(parts[0])
+		if len(hd) != 2 {
+			return nil, fmt.Errorf("bad table row head %q", row)
+		}
+		mt, err := strconv.ParseInt(strings.TrimPrefix(hd[1], "0x"), 16, 32)
+		if err != nil {
+			return nil, err
+		}
+		m := &tsMsg{Name: hd[0], MsgType: int(mt)}
+		for _, f := range strings.Fields(parts[1]) {
+			q := strings.Split(f, ":")
+			if len(q) != 2 {
+				return nil, fmt.Errorf("bad mandatory field %q in %s", f, m.Name)
+			}
+			tf := tsField{GoType: q[0]}
+			switch {
+			case q[1] == "LV" || q[1] == "LVE":
+				tf.Format = q[1]
+			case strings.HasPrefix(q[1], "V"):
+				tf.Format = "V"
+				tf.N, _ = strconv.Atoi(q[1][1:])
+			default:
+				return nil, fmt.Errorf("bad format %q in %s", f, m.Name)
+			}
+			m.Mand = append(m.Mand, tf)
+		}
+		for _, f := range strings.Fields(parts[2]) {
+			q := strings.Split(f, ":")
+			if len(q) != 3 {
+				return nil, fmt.Errorf("bad optional IE %q in %s", f, m.Name)
+			}
+			iei, err := strconv.ParseInt(q[1], 16, 32)
+			if err != nil {
+				return nil, err
+			}
+			tf := tsField{GoType: q[0], IEI: int(iei)}
+			switch {
+			case q[2] == "TLV" || q[2] == "TLVE" || q[2] == "TV1":
+				tf.Format = q[2]
+			case strings.HasPrefix(q[2], "TV"):
+				tf.Format = "TV"
+				tf.N, _ = strconv.Atoi(q[2][2:])
+			default:
+				return nil, fmt.Errorf("bad format %q in %s", f, m.Name)
+			}
+			m.Opt = append(m.Opt, tf)
+		}
+		out[m.Name] = m
+	}
+	return out, nil
+}
+
+// nasLayoutFindings: disagreements between the declarations and the tables that need no solver
+// (an IE of the library missing in the table, a table row without field, a shape that cannot carry
+// the tabulated format).  Each is reported as a failed structural obligation of C09.
+var nasLayoutFindings []string
+var nasLayoutCovered int
+
+func genNasLayout(b *strings.Builder, msgs []*nasMsg, types map[string]*nasIEType) error {
+	tabs, err := parseTsTables()
+	if err != nil {
+		return err
+	}
+	nasLayoutFindings = nil
+	nasLayoutCovered = 0
+	for _, m := range msgs {
+		if !m.done {
+			continue
+		}
+		tm := tabs[m.Name]
+		if tm == nil {
+			nasLayoutFindings = append(nasLayoutFindings, m.Name+": no row in the transcription of TS 24.501 clause 8")
+			continue
+		}
+		// header
+		var mand, opt []nasMsgField
+		for _, f := range m.Fields {
+			if f.Optional {
+				opt = append(opt, f)
+			} else {
+				mand = append(mand, f)
+			}
+		}
+		gsm := tm.MsgType >= 0xc0
+		hdr := 3
+		if gsm {
+			hdr = 4
+		}
+		if len(mand) < hdr {
+			nasLayoutFindings = append(nasLayoutFindings, m.Name+": fewer mandatory fields than the header has")
+			continue
+		}
+		okMsg := true
+		wantHdr := []string{"ExtendedProtocolDiscriminator", "SpareHalfOctetAndSecurityHeaderType"}
+		if gsm {
+			wantHdr = []string{"ExtendedProtocolDiscriminator", "PDUSessionID", "PTI"}
+		}
+		for i, w := range wantHdr {
+			if mand[i].Type != w {
+				nasLayoutFindings = append(nasLayoutFindings, fmt.Sprintf("%s: header field %d is %s, the standard has %s", m.Name, i+1, mand[i].Type, w))
+				okMsg = false
+			}
+		}
+		if !strings.HasSuffix(mand[hdr-1].Type, "MessageIdentity") && !strings.Contains(mand[hdr-1].Type, "MessageIdentity") {
+			nasLayoutFindings = append(nasLayoutFindings, fmt.Sprintf("%s: header field %d is %s, the standard has the message type", m.Name, hdr, mand[hdr-1].Type))
+			okMsg = false
+		}
+		rest := mand[hdr:]
+		if len(rest) != len(tm.Mand) {
+			nasLayoutFindings = append(nasLayoutFindings, fmt.Sprintf("%s: %d mandatory fields after the header, table 8 has %d", m.Name, len(rest), len(tm.Mand)))
+			okMsg = false
+		}
+		if !okMsg {
+			continue
+		}
+		for i, f := range rest {
+			if f.Type != tm.Mand[i].GoType {
+				nasLayoutFindings = append(nasLayoutFindings, fmt.Sprintf("%s: mandatory field %d is %s, the table has %s", m.Name, i+1, f.Type, tm.Mand[i].GoType))
+				okMsg = false
+			}
+		}
+		optByType := map[string]tsField{}
+		for _, o := range tm.Opt {
+			optByType[o.GoType] = o
+		}
+		for _, f := range opt {
+			if _, ok := optByType[f.Type]; !ok {
+				nasLayoutFindings = append(nasLayoutFindings, fmt.Sprintf("%s: optional IE %s is not in the table of the message", m.Name, f.Type))
+				okMsg = false
+			}
+		}
+		have := map[string]bool{}
+		for _, f := range opt {
+			have[f.Type] = true
+		}
+		for _, o := range tm.Opt {
+			if !have[o.GoType] {
+				nasLayoutFindings = append(nasLayoutFindings, fmt.Sprintf("%s: table row %s (IEI %X) has no field in the library's message", m.Name, o.GoType, o.IEI))
+				okMsg = false
+			}
+		}
+		if !okMsg {
+			continue
+		}
+		nasLayoutCovered++
+		var flagsNone []string
+		for range m.opts {
+			flagsNone = append(flagsNone, "false")
+		}
+		build := func(flags []string) string {
+			return fmt.Sprintf("VcBuild_%s(%s)", m.Name, strings.Join(append(append([]string{}, flags...), m.args...), ", "))
+		}
+		// mandatory part
+		fmt.Fprintf(b, "// %s: message type %#x; layout of the mandatory part (TS 24.501 table for the message)\n// prop: C09\nfunc vcLemma_layout_%s_mandatory(%s) {\n", m.Name, tm.MsgType, m.Name, strings.Join(m.params, ", "))
+		fmt.Fprintf(b, "\ta := %s\n\tbuf := new(bytes.Buffer)\n\ta.Encode%s(buf)\n\tw := buf.Bytes()\n\toff := 0\n", build(flagsNone), m.Name)
+		for i := 0; i < hdr; i++ {
+			fmt.Fprintf(b, "\tvc.Assert(%q, len(w) > off && w[off] == a.%s.Octet)\n\toff++\n", "header."+mand[i].Type, mand[i].Type)
+		}
+		for i, f := range rest {
+			t := types[f.Type]
+			tf := tm.Mand[i]
+			lbl := "field." + f.Type
+			switch tf.Format {
+			case "V":
+				if tf.N == 1 && t.OctetN == -1 && t.LenBits == 0 {
+					fmt.Fprintf(b, "\tvc.Assert(%q, len(w) > off && w[off] == a.%s.Octet)\n\toff++\n", lbl, f.Type)
+				} else if t.OctetN == tf.N && t.LenBits == 0 {
+					fmt.Fprintf(b, "\tvc.Assert(%q, len(w) >= off+%d && vc.Forall(0, %d, func(j int) bool { return w[off+j] == a.%s.Octet[j] }))\n\toff += %d\n", lbl, tf.N, tf.N, f.Type, tf.N)
+				} else {
+					nasLayoutFindings = append(nasLayoutFindings, fmt.Sprintf("%s: %s cannot carry format V%d", m.Name, f.Type, tf.N))
+				}
+			case "LV", "LVE":
+				lw := 1
+				if tf.Format == "LVE" {
+					lw = 2
+				}
+				if t.LenBits != 8*lw {
+					nasLayoutFindings = append(nasLayoutFindings, fmt.Sprintf("%s: %s cannot carry format %s (length field of %d bits)", m.Name, f.Type, tf.Format, t.LenBits))
+					continue
+				}
+				if !t.HasBuf {
+					// the value is kept in a fixed array (or one octet): the length field, then the octets the
+					// length announces; an IE that is not the last one must have exactly its announced length
+					if lw == 1 {
+						fmt.Fprintf(b, "\tvc.Assert(%q, len(w) > off && w[off] == a.%s.Len)\n\toff++\n", lbl+".length", f.Type)
+					} else {
+						fmt.Fprintf(b, "\tvc.Assert(%q, len(w) > off+1 && uint16(w[off])<<8|uint16(w[off+1]) == a.%s.Len)\n\toff += 2\n", lbl+".length", f.Type)
+					}
+					if t.OctetN == -1 {
+						fmt.Fprintf(b, "\tvc.Assert(%q, len(w) > off && w[off] == a.%s.Octet)\n\toff++\n", lbl+".value", f.Type)
+					} else {
+						fmt.Fprintf(b, "\tvc.Assert(%q, len(w) >= off+int(a.%s.Len) && vc.Forall(0, int(a.%s.Len), func(j int) bool { return w[off+j] == a.%s.Octet[j] }))\n", lbl+".value", f.Type, f.Type, f.Type)
+						fmt.Fprintf(b, "\tif len(w) == off+%d {\n\t\toff += %d\n\t} else {\n\t\toff += int(a.%s.Len)\n\t}\n", t.OctetN, t.OctetN, f.Type)
+					}
+					continue
+				}
+				if lw == 1 {
+					fmt.Fprintf(b, "\tvc.Assert(%q, len(w) > off && w[off] == a.%s.Len)\n\toff++\n", lbl+".length", f.Type)
+				} else {
+					fmt.Fprintf(b, "\tvc.Assert(%q, len(w) > off+1 && uint16(w[off])<<8|uint16(w[off+1]) == a.%s.Len)\n\toff += 2\n", lbl+".length", f.Type)
+				}
+				fmt.Fprintf(b, "\tvc.Assert(%q, len(w) >= off+len(a.%s.Buffer) && vc.Forall(0, len(a.%s.Buffer), func(j int) bool { return w[off+j] == a.%s.Buffer[j] }))\n\toff += len(a.%s.Buffer)\n", lbl+".value", f.Type, f.Type, f.Type, f.Type)
+			}
+		}
+		fmt.Fprintf(b, "\tvc.Assert(\"end\", len(w) == off)\n}\n\n")
+		// each optional IE
+		for _, k := range m.opts {
+			f := m.Fields[k]
+			t := types[f.Type]
+			tf := optByType[f.Type]
+			var flags []string
+			for _, i := range m.opts {
+				if i == k {
+					flags = append(flags, "true")
+				} else {
+					flags = append(flags, "false")
+				}
+			}
+			fmt.Fprintf(b, "// %s, IE %s: IEI %X, format %s%s\n// prop: C09\nfunc vcLemma_layout_%s_ie_%s(%s) {\n", m.Name, f.Type, tf.IEI, tf.Format, nStr(tf), m.Name, f.Type, strings.Join(m.params, ", "))
+			fmt.Fprintf(b, "\tb0 := new(bytes.Buffer)\n\t%s.Encode%s(b0)\n\tn0 := len(b0.Bytes())\n", build(flagsNone), m.Name)
+			fmt.Fprintf(b, "\ta := %s\n\tbuf := new(bytes.Buffer)\n\ta.Encode%s(buf)\n\tw := buf.Bytes()\n", build(flags), m.Name)
+			x := "a." + f.Type
+			switch tf.Format {
+			case "TV1":
+				if t.OctetN != -1 || t.HasIei || t.LenBits != 0 {
+					nasLayoutFindings = append(nasLayoutFindings, fmt.Sprintf("%s: %s cannot carry a half-octet IE", m.Name, f.Type))
+					fmt.Fprintf(b, "\t_, _, _ = w, n0, a\n")
+					break
+				}
+				fmt.Fprintf(b, "\tvc.Assert(\"size\", len(w) == n0+1)\n\tvc.Assert(\"iei\", w[n0]>>4 == %#x)\n\tvc.Assert(\"value\", w[n0]&0x0f == %s.Octet&0x0f)\n", tf.IEI, x)
+			case "TV":
+				fmt.Fprintf(b, "\tvc.Assert(\"size\", len(w) == n0+%d)\n\tvc.Assert(\"iei\", w[n0] == %#x)\n", tf.N, tf.IEI)
+				if t.OctetN == -1 && tf.N == 2 {
+					fmt.Fprintf(b, "\tvc.Assert(\"value\", w[n0+1] == %s.Octet)\n", x)
+				} else if t.OctetN >= tf.N-1 {
+					fmt.Fprintf(b, "\tvc.Assert(\"value\", vc.Forall(0, %d, func(j int) bool { return w[n0+1+j] == %s.Octet[j] }))\n", tf.N-1, x)
+				} else {
+					nasLayoutFindings = append(nasLayoutFindings, fmt.Sprintf("%s: %s cannot carry format TV%d", m.Name, f.Type, tf.N))
+				}
+			case "TLV", "TLVE":
+				lw := 1
+				if tf.Format == "TLVE" {
+					lw = 2
+				}
+				if t.LenBits != 8*lw || !t.HasIei {
+					nasLayoutFindings = append(nasLayoutFindings, fmt.Sprintf("%s: %s cannot carry format %s (length field of %d bits)", m.Name, f.Type, tf.Format, t.LenBits))
+					fmt.Fprintf(b, "\t_, _, _ = w, n0, a\n")
+					break
+				}
+				fmt.Fprintf(b, "\tvc.Assert(\"iei\", len(w) >= n0+%d && w[n0] == %#x)\n", 1+lw, tf.IEI)
+				if lw == 1 {
+					fmt.Fprintf(b, "\tvc.Assert(\"length\", w[n0+1] == %s.Len)\n", x)
+				} else {
+					fmt.Fprintf(b, "\tvc.Assert(\"length\", uint16(w[n0+1])<<8|uint16(w[n0+2]) == %s.Len)\n", x)
+				}
+				if t.HasBuf {
+					fmt.Fprintf(b, "\tvc.Assert(\"size\", len(w) == n0+%d+int(%s.Len))\n", 1+lw, x)
+					fmt.Fprintf(b, "\tvc.Assert(\"value\", vc.Forall(0, len(%s.Buffer), func(j int) bool { return w[n0+%d+j] == %s.Buffer[j] }))\n", x, 1+lw, x)
+				} else if t.OctetN == -1 {
+					fmt.Fprintf(b, "\tvc.Assert(\"size\", len(w) == n0+%d)\n\tvc.Assert(\"value\", w[n0+%d] == %s.Octet)\n", 2+lw, 1+lw, x)
+				} else {
+					// an array with a length: the length octets given, or the whole array
+					fmt.Fprintf(b, "\tvc.Assert(\"size\", len(w) == n0+%d+int(%s.Len) || len(w) == n0+%d)\n", 1+lw, x, 1+lw+t.OctetN)
+					fmt.Fprintf(b, "\tvc.Assert(\"value\", vc.Forall(0, int(%s.Len), func(j int) bool { return w[n0+%d+j] == %s.Octet[j] }))\n", x, 1+lw, x)
+				}
+			}
+			b.WriteString("}\n\n")
+		}
+	}
+	return nil
+}
+
+func nStr(f tsField) string {
+	if f.N > 0 {
+		return strconv.Itoa(f.N)
+	}
+	return ""
+}
+
+// tsValueOctets: the number of value octets the standard gives a fixed-size IE of a message (0: unknown).
+func tsValueOctets(msg, goType string, optional bool) int {
+	tabs, err := parseTsTables()
+	if err != nil || tabs[msg] == nil {
+		return 0
+	}
+	if optional {
+		for _, o := range tabs[msg].Opt {
+			if o.GoType == goType && o.Format == "TV" {
+				return o.N - 1
+			}
+		}
+		return 0
+	}
+	for _, o := range tabs[msg].Mand {
+		if o.GoType == goType && o.Format == "V" {
+			return o.N
+		}
+	}
+	return 0
 }
